@@ -182,6 +182,9 @@ impl Scenario for Rpc {
             json!({"programs": [["declare", "purge"], ["purge", "declare"]], "hold": true, "reuse": "ba"}),
         ];
         v.push(json!({"programs": [["declare", "purge"], ["publish", "delete"]], "hold": false, "fine": true}));
+        // a high-water mark below one publish (default low-water mark): every publish is a
+        // throttling episode, and the calls behind it still get their own replies
+        v.push(json!({"programs": [["publish", "declare", "purge"], ["purge", "publish", "declare"]], "hold": false, "high": 64}));
         if tier == "thorough" {
             v.push(json!({"programs": [["declare", "declare_auto", "declare_passive"], ["purge", "delete", "purge"], ["get_empty", "consume_cancel"]], "hold": true}));
             v.push(json!({"programs": [["bind", "declare"], ["recover", "purge"], ["confirm", "delete"]], "hold": false}));
@@ -224,11 +227,15 @@ impl Scenario for Rpc {
         }
         let reuse = p["reuse"].is_string();
         let close_b_first = p["reuse"] == "ba";
+        let tuning = match p["high"].as_u64() {
+            Some(h) => ConnectionTuning::default().buffered_writes_high_water(h as usize),
+            None => ConnectionTuning::default(),
+        };
         Built {
             broker: Box::new(broker),
             cfg,
             root: Box::new(move |ctx: Ctx| {
-                let mut conn = match open(&ctx, ConnectionOptions::default().heartbeat(0).channel_max(if reuse { 2 } else { 0 }), ConnectionTuning::default()) {
+                let mut conn = match open(&ctx, ConnectionOptions::default().heartbeat(0).channel_max(if reuse { 2 } else { 0 }), tuning) {
                     Ok(c) => c,
                     Err(e) => {
                         ctx.log(format!("open -> Err({})", err_name(&e)));
@@ -409,6 +416,10 @@ impl Scenario for ChClose {
                 v.push(json!({"n": n, "state": state}));
             }
         }
+        // the channel had a consumer earlier, cancelled by the client and dropped: nothing of it
+        // is in the way when the server closes the channel
+        v.push(json!({"n": 1, "state": "idle", "excons": true}));
+        v.push(json!({"n": 2, "state": "inflight", "excons": true}));
         v.push(json!({"n": 1, "state": "crossing-reuse"}));
         // ... and the automatic allocation right after crossing closes of the newest channel: it
         // must not hand out the id whose CloseOk is still on its way
@@ -467,10 +478,11 @@ impl Scenario for ChClose {
         let text = p["text"].as_str().unwrap_or("PRECONDITION_FAILED").to_string();
         frames.push(chan_close_frame(n, code, &text));
         // offered once channel n's actor has sent its first request (so that the state exists)
+        let excons = p["excons"] == true;
         let need = match state.as_str() {
             "consumers" => 3, // open + two consumes
             _ => 2,           // open + one request (purge / consume / delete)
-        };
+        } + if excons { 2 } else { 0 }; // ... + the earlier consumer's consume and cancel
         broker.pushes.push(Push::new("chan-close", frames).when_channel(n, need));
         if state == "inflight" {
             broker.mute.push((50, 40)); // queue.delete is never answered: the call stays in flight
@@ -502,6 +514,19 @@ impl Scenario for ChClose {
                         let mut seq = 2u32;
                         if chan == n {
                             // the channel that will be closed
+                            if excons {
+                                match ch.basic_consume("q", ConsumerOptions::default()) {
+                                    Ok(c) => {
+                                        let r = c.cancel();
+                                        if r.is_err() {
+                                            ctx.log(format!("cancel -> {}", res(&r)));
+                                        }
+                                        drop(c);
+                                    }
+                                    Err(e) => ctx.log(format!("consume -> Err({})", err_name(&e))),
+                                }
+                                seq += 2;
+                            }
                             let mut consumers = Vec::new();
                             if state == "consumers" || state == "halfcontent" {
                                 for _ in 0..(if state == "consumers" { 2 } else { 1 }) {
@@ -772,7 +797,10 @@ impl Scenario for PubWire {
             json!({"stall": null, "fine": true}),
             // a message of 35 body frames (more than 128 KiB on the wire) on the channel whose
             // consumer the server cancels, through a queue of one entry
-            json!({"stall": null, "cancel": true, "big": 140000, "qbound": 1})]
+            json!({"stall": null, "cancel": true, "big": 140000, "qbound": 1}),
+            // a high-water mark below one message (default low-water mark): throttling episodes
+            // while the messages go out
+            json!({"stall": 400, "high": 64}), json!({"stall": null, "high": 64})]
     }
     fn bound(&self, tier: &str, p: &Value) -> usize {
         if p["fine"] == true {
@@ -808,11 +836,12 @@ impl Scenario for PubWire {
         }
         let lens = pubwire_lens(p);
         let qbound = p["qbound"].as_u64().unwrap_or(2) as usize;
+        let high = p["high"].as_u64().map(|h| h as usize);
         Built {
             broker: Box::new(broker),
             cfg,
             root: Box::new(move |ctx: Ctx| {
-                let mut conn = match open(&ctx, ConnectionOptions::default().heartbeat(0), ConnectionTuning::default().mem_channel_bound(qbound)) {
+                let mut conn = match open(&ctx, ConnectionOptions::default().heartbeat(0), match high { Some(h) => ConnectionTuning::default().mem_channel_bound(qbound).buffered_writes_high_water(h), None => ConnectionTuning::default().mem_channel_bound(qbound) }) {
                     Ok(c) => c,
                     Err(e) => {
                         ctx.log(format!("open -> Err({})", err_name(&e)));
